@@ -46,7 +46,10 @@ const KF_HUGE: &str = "KF-C04-L2";
 const KF_LENIENT: &str = "KF-C04-L3";
 
 fn budget(ncmds: usize, nreads: usize) -> usize {
-    4000 + 200 * (ncmds + nreads)
+    // one scheduler turn runs dozens of task polls; a command costs about two polls and reads
+    // never suspend (a 4097-command pipeline finishes in < 200 turns): this is >= 100x what
+    // any generated stream needs, while keeping a hung handler cheap to recognise
+    (4000 + 20 * (ncmds + nreads)).min(120_000)
 }
 
 // ---------------------------------------------------------------------------------------
@@ -989,7 +992,7 @@ fn main() {
     );
     s.assume("the harness' strict RESP2 reply decoder (vcore::resp) and its command encoder");
     s.assume("reference = the same handler fed one command per read with batching off (min_pipeline_buffer = usize::MAX) on a fresh twin server: 'the reply the command would get if sent alone after its predecessors completed'");
-    s.assume("termination is structural: fresh current-thread runtime, scripted socket that never blocks; a handler that has not returned after 4000 + 200*(commands+reads) scheduler turns is hung");
+    s.assume("termination is structural: fresh current-thread runtime, scripted socket that never blocks; a handler that has not returned after 4000 + 20*(commands+reads) scheduler turns is hung");
     s.assume("replies whose element order follows hash-map iteration (KEYS, SMEMBERS, HKEYS, HVALS, HGETALL, EXEC results) are compared as multisets; SCAN-family replies by shape only");
     s.assume("commands with wall-clock dependent replies (expiry family), SPOP/RANDOMKEY and non-UTF-8 keys are not generated");
 
